@@ -230,7 +230,7 @@ func (h *H) checkLU(id string, seedIdx int, m, n int, cls string, deep bool) {
 	if deep {
 		nrhsList = []int{0, 1, 3, 17}
 	}
-	for ti, trans := range []blas.Transpose{blas.NoTrans, blas.Trans} {
+	for ti, trans := range []blas.Transpose{blas.NoTrans, blas.Trans, blas.ConjTrans} {
 		nrhs := nrhsList[(seedIdx+ti)%len(nrhsList)]
 		b := ref.FromFunc(n, nrhs, func(i, j int) float64 { return rng.Sym() })
 		tag := fmt.Sprintf("trans=%c", trans)
@@ -353,4 +353,45 @@ func (cs *Case) checkRcond(routine, tag string, est, truth float64, n int, kappa
 		cs.fail(routine, tag, "rcond-below-true", "%s: estimate %g is below the true reciprocal condition number %g (norm of inverse overestimated)", what, est, truth)
 	}
 	cs.band(routine, tag, "rcond-overestimate", est, truth*float64(n+9), func() string { return what })
+}
+
+// checkGeconOptions exercises the documented special values of Dgecon's
+// anorm argument (0 and +Inf give 0, NaN gives NaN) and the empty problem
+// (n == 0 gives 1), with both norm kinds.
+func (h *H) checkGeconOptions(id string, seedIdx, n int) {
+	rng := h.c.RNG("geconopt", seedIdx)
+	cs := h.newCase(id, rng)
+	defer cs.done()
+	a := ref.FromFunc(n, n, func(i, j int) float64 {
+		if i == j {
+			return 4 + rng.Sym()
+		}
+		return rng.Sym() / float64(n)
+	})
+	for _, nk := range []lapack.MatrixNorm{lapack.MaxColumnSum, lapack.MaxRowSum} {
+		tag := fmt.Sprintf("norm=%c anorm-special", nk)
+		for _, an := range []float64{0, math.Inf(1), math.NaN(), 1} {
+			args, res := cs.call("Dgecon", tag, D{"n": n}, D{"norm": int(nk)}, cfg{pad: 7 * (seedIdx % 2)}, func(x *lapackgen.Args) {
+				setMat(x, "a", a) // an upper/lower triangular pair with unit L: a valid LU operand
+				x.Arg("anorm").F = an
+			})
+			if args == nil {
+				continue
+			}
+			var bad bool
+			switch {
+			case n == 0:
+				bad = res.F != 1
+			case an == 0 || math.IsInf(an, 1):
+				bad = res.F != 0
+			case math.IsNaN(an):
+				bad = !math.IsNaN(res.F)
+			default:
+				bad = !(res.F > 0) || math.IsInf(res.F, 0) // anorm = 1 is not the true norm: only positivity is required
+			}
+			if bad {
+				cs.fail("Dgecon", tag, "documented-special-value", "n=%d anorm=%v: rcond=%v", n, an, res.F)
+			}
+		}
+	}
 }
